@@ -6,7 +6,7 @@ from hypothesis import strategies as st
 
 from .. import darwin as D, events as EV, kmodel, strategies as S, textparse as TP
 from ..core import Violation, guard
-from .c09 import render
+from .c09 import render, text_of
 
 ID = 'C11'
 RULE = ('per family, value -> names shown in the rendered text of a decoder that uses it, checked against tables typed '
@@ -31,7 +31,7 @@ def single(name, args, q=0, tid=5):
     out = list(p.feed_generator(EV.realize([EV.E(tid, name, q, args=args)])))
     if len(out) != 1:
         raise Violation('trace-count', f'{name}: {len(out)} traces')
-    return str(out[0])
+    return text_of(name, out[0])
 
 
 def names_of(seg):
@@ -88,10 +88,26 @@ WIDTH = {'kperfti': 16, 'vmprot': 8}
 ZERO_FIELD = {'access': 7}
 
 
+# a field packed into a word with neighbours: the names shown for it are a function of the field alone
+NEIGHBOURS = {
+    'vmprot': [lambda v: names_of(after(single('RealFaultAddressInternal', [1, 1 | (v << 8), 3, 4]), 'vm_prot: ', ', type:')),
+               lambda v: names_of(after(single('RealFaultAddressExternal', [9, 2 | (v << 8) | (0xffff << 16), 3, 4]), 'vm_prot: ', ', type:'))],
+    'thstate': [lambda v: names_of(after(single('MACH_DISPATCH', [7, 0xffff, v, 0]), 'state: '))],
+    'ast-dispatch': [lambda v: names_of(after(single('MACH_DISPATCH', [7, v, 0xff, 9]), 'reason: ', ', state:'))],
+    'callstack': [lambda v: names_of(after(single('PERF_STK_UHdr', [v, 500, 0, 0]), 'flags: ', ', frames count'))],
+}
+
+
 def check_word(fam, v):
     obs, bits, fields, zero_name = FAMILIES[fam]
     shown = guard(obs, v)
-    return judge(fam, v, shown)
+    judge(fam, v, shown)
+    for other in NEIGHBOURS.get(fam, ()):
+        again = guard(other, v)
+        judge(fam, v, again)
+        if again != shown:
+            raise Violation(f'field-depends-on-neighbours:{fam}', f'{fam} {v:#x}: shown as {shown} beside one set of neighbouring fields and as {again} beside another')
+    return shown
 
 
 def judge(fam, v, shown):
